@@ -117,7 +117,70 @@ func (l *ledgers) onStart(n *simNode) {
 	}
 }
 
-func (l *ledgers) onCommitAdvance(inc *incarnation) {}
+// onCommitAdvance runs inside the committing node's raft goroutine at the
+// instant its commit index was raised (hook commit.advance): durability census.
+// Only leaders are judged: they take the decision with their own latest
+// configuration; a follower's configuration may lag behind the one in force.
+func (l *ledgers) onCommitAdvance(inc *incarnation) {
+	c := l.c
+	r := inc.r
+	if r.state != Leader || r.ldr == nil {
+		return
+	}
+	index := r.commitIndex
+	if index == 0 || index <= r.log.PrevIndex() || index > r.log.LastIndex() {
+		return
+	}
+	b, err := r.log.Get(index)
+	if err != nil || len(b) < 16 {
+		return
+	}
+	term := binary.LittleEndian.Uint64(b[8:16])
+	cfg := r.configs.Latest
+	voters, durable := 0, 0
+	var missing []uint64
+	for id, nd := range cfg.Nodes {
+		if !nd.Voter {
+			continue
+		}
+		voters++
+		n := c.nodes[id]
+		if n == nil {
+			missing = append(missing, id)
+			continue
+		}
+		dir := n.dir
+		if n.status != nodeUp {
+			dir = n.image
+		}
+		if id == inc.id {
+			dir = inc.dir
+		}
+		ok := false
+		if dir != "" {
+			if t, have := diskEntryTerm(dir, index); have && t == term {
+				ok = true
+			} else if latestSnapOnDisk(dir) >= index {
+				ok = true
+			}
+		}
+		if ok {
+			durable++
+		} else {
+			missing = append(missing, id)
+		}
+	}
+	c.stats.class("census")
+	if len(cfg.Nodes) > voters {
+		c.stats.class("census-with-nonvoters")
+	}
+	if cfg.Index > 1 && (!r.configs.IsCommitted() || cfg.Index == index) {
+		c.stats.class("census-config-just-changed")
+	}
+	if durable < voters/2+1 {
+		c.fail("durable-majority", "commit-without-durable-majority", "leader %d (term %d) raised its commit index to %d (entry term %d) while the entry is durable on %d of %d voters of %v; not on %v", inc.id, r.term, index, term, durable, voters, cfg, missing)
+	}
+}
 
 func hash64(b []byte) uint64 {
 	h := fnv.New64a()
